@@ -525,6 +525,10 @@ def run(run: Run):
     run.rule('C19.R5', 'nothing collected for one workbook survives into the report of the next (no mutable default changed or handed out)')
     run.guard('C19.R5', check_mutable_defaults, run, 'C19.R5', src)
     run.floor('C19.R5', 5)
+    from .common import check_rejections_propagate
+    run.rule('C19.R7', 'the safety exception reaches the caller: no handler on the translation path turns it into a value')
+    run.guard('C19.R7', check_rejections_propagate, run, 'C19.R7', src, cg, ['Excel.is_safe'], 'a workbook with Python-like cells')
+    run.floor('C19.R7', 50)
     run.floor('C19.R1', 2)
     run.floor('C19.R2', 9)
     run.floor('C19.R3', 6)
